@@ -1,5 +1,6 @@
 use crate::runner::Property;
 
+pub mod c01;
 pub mod c02;
 pub mod c03;
 pub mod c05;
@@ -8,6 +9,7 @@ pub mod c15;
 
 pub fn property(id: &str) -> Option<Property> {
     match id {
+        "C01" => Some(c01::property()),
         "C02" => Some(c02::property()),
         "C03" => Some(c03::property()),
         "C05" => Some(c05::property()),
